@@ -18,6 +18,7 @@ def run(S):
     forward_admission_manager(S, D, 'C02.e')
     policy_window(S, D)
     onchain_dedup(S, D)
+    raa_blocker_release(S, D)
     E = S.engine()
     f = S.fn('internal_htlc_satisfies_config')
     mem = {}
@@ -300,3 +301,73 @@ def onchain_dedup(S, D):
             'an on-chain HTLC resolution is treated as already reported only if a pending HTLCEvent carries the SAME HTLC source; an event for another HTLC with the same payment hash does not suppress it - so the preimage revealed on chain reaches every upstream HTLC it settles',
             [b], bounds='the %d de-duplication closures of is_resolving_htlc_output, each on an arbitrary pending event (any kind); sources / hashes as abstract identities' % len(cl))
     S.witness(ids[1], E, [], z3.And(*wit))
+
+
+def raa_blocker_release(S, D):
+    """C02.h: "the downstream monitor may forget a preimage only when every upstream monitor that needs it has it".
+    A forwarder's downstream channel keeps a list of blockers (one per upstream claim whose preimage update is not yet
+    durable); the update that lets the downstream monitor drop the preimage is held while the list is non-empty
+    (`raa_monitor_updates_held`). `ChannelManager::handle_monitor_update_release`, region from the take of the completed
+    blocker to that test: exactly the entries equal to the completed blocker leave the list, the others stay in order, and
+    the map entry is removed iff the list is then empty. <= 3 blockers as abstract identities; BTreeMap entry API stubbed."""
+    import re
+    from .C10 import _ident, _deref_all
+    ids = ['C02.h.only_the_completed_blocker_leaves', 'C02.h.witness']
+    if all(S._skip(o) for o in ids):
+        return
+    f = S.fn('handle_monitor_update_release')
+    calls = lambda rx: [b for b, (bd, t) in f.blocks.items() if t[0] == 'call' and re.search(rx, str(t[2]))]
+    st, sp = calls(r'Option::<(?:\w+::)*RAAMonitorUpdateBlockingAction>::take$'), calls(r'::raa_monitor_updates_held$')
+    if len(st) != 1 or len(sp) != 1:
+        raise X.Unsupported('handle_monitor_update_release: %d takes, %d held-tests' % (len(st), len(sp)))
+    N = 3
+    E = S.engine(unwind=N + 1)
+    mem = {}
+    n = E.sym('blockers.len', 'usize')
+    E.assume(n.t <= N)
+    lst = E.new_cell()
+    mem[lst] = X.Seq([X.Adt('RAAMonitorUpdateBlockingAction', {}, base='blocker%d' % i) for i in range(N)], n.t, 'RAAMonitorUpdateBlockingAction')
+    given, occupied = z3.Bool('env.blocker_given'), z3.Bool('env.entry_occupied')
+    removed = []
+    eqs = lambda a, b, mem_: _ident(_deref_all(E, a, mem_)) == _ident(_deref_all(E, b, mem_))
+    for rx, h in [
+        (r'Option::<(?:\w+::)*RAAMonitorUpdateBlockingAction>::take$', lambda *a: X.En('Option', z3.If(given, 1, 0), {1: [X.Adt('RAAMonitorUpdateBlockingAction', {}, base='completed')]})),
+        (r'BTreeMap::<.*RAAMonitorUpdateBlockingAction>>::entry$', lambda *a: X.En('Entry', z3.If(occupied, 1, 0), {0: [X.Opaque('vacant entry')], 1: [X.Opaque('occupied entry')]})),
+        (r'OccupiedEntry::<.*RAAMonitorUpdateBlockingAction>>::get(?:_mut)?$', lambda *a: X.Ref(lst)),
+        (r'OccupiedEntry::<.*RAAMonitorUpdateBlockingAction>>::remove$', lambda E_, m, func, argv, guard, *a: (removed.append(X.zbool(guard)), X.Opaque('removed list'))[1]),
+        (r'RAAMonitorUpdateBlockingAction as PartialEq>::ne$', lambda E_, m, func, argv, guard, mem_, *a: X.B(z3.Not(eqs(argv[0], argv[1], mem_)))),
+        (r'RAAMonitorUpdateBlockingAction as PartialEq>::eq$', lambda E_, m, func, argv, guard, mem_, *a: X.B(eqs(argv[0], argv[1], mem_))),
+    ]:
+        E.models.insert(0, (re.compile(rx), h))
+    run = X.FnRun(E, f, [X.Opaque('self'), X.Opaque('peer'), X.Opaque('channel id'), X.Opaque('blocker')][:len(f.params)], True, mem)
+    E.depth += 1
+    run.run(start_bb=st[0], init={}, stop_bbs=(sp[0],))
+    E.depth -= 1
+    if not run.stop_states.get(sp[0]):
+        raise X.Unsupported('handle_monitor_update_release: the held-test is not reached')
+    g_stop, m_stop = E.merge_mem(run.stop_states[sp[0]])
+    post = m_stop[lst]
+    if not isinstance(post, X.Seq) or len(post.elems) != N:
+        raise X.Unsupported('blocker list after the region: %r' % (post,))
+    idc = z3.Int('ident.completed')
+    ids_ = [z3.Int('ident.blocker%d' % i) for i in range(N)]
+    act = z3.And(given, occupied)
+    keep = [z3.And(n.t > i, z3.Or(z3.Not(act), ids_[i] != idc)) for i in range(N)]
+    # the surviving entries, in order: the k-th present element after == the k-th kept element before
+    conj = [X.zbool(g_stop)]
+    cnt_after = sum([z3.If(X.zbool(p), 1, 0) for p in post.pres], z3.IntVal(0))
+    conj.append(cnt_after == sum([z3.If(k, 1, 0) for k in keep], z3.IntVal(0)))
+    for i in range(N):
+        pos_before = sum([z3.If(keep[j], 1, 0) for j in range(i)], z3.IntVal(0))
+        for j in range(N):
+            pos_after = sum([z3.If(X.zbool(post.pres[l]), 1, 0) for l in range(j)], z3.IntVal(0))
+            conj.append(z3.Implies(z3.And(keep[i], X.zbool(post.pres[j]), pos_before == pos_after), _ident(post.elems[j]) == ids_[i]))
+    n_removed = sum([z3.If(g, 1, 0) for g in removed], z3.IntVal(0))
+    conj.append(n_removed == z3.If(z3.And(act, cnt_after == 0), 1, 0))
+    claim = z3.And(*conj)
+    b = Binding('two_edge_raa_battery', [z3.IntVal(0)], [z3.If(claim, 0, 1)], parse=lambda t: [0 if t[0] == '0' else 1], line_fn=lambda v: '0',
+                which='oracle_tu', via_solver=True, domain=[(0, 0)], panic=False)
+    S.prove(ids[0], E, [], claim,
+            'when one blocker of a channel completes, exactly the list entries equal to it are dropped - every other blocker stays, in order - and the channel leaves the map of blocked channels iff none is left: the held monitor update of the downstream channel cannot be released while another upstream claim is still waiting for its preimage update',
+            [b], bounds='region of handle_monitor_update_release; <= %d blockers as abstract identities, any of them equal to the completed one; entry API stubbed' % N)
+    S.witness(ids[1], E, [act, n.t == 2, ids_[0] == idc, ids_[1] != idc], cnt_after == 1)
